@@ -72,26 +72,41 @@ def r1(ctx):
 
 
 def r2(ctx):
+    """ArithmeticOp::calc evaluated (finite interpreter) for each operator on two operand pairs: the result must be
+    left OP right in f64, operands in that order"""
+    import interp
     h = ctx.anchor_hir(CALC)
-    ms = find_matches(h)
-    if not ms:
-        ctx.violation("anchor/calc", CALC, "operator table of ArithmeticOp::calc not found")
-        raise Abort()
-    want = {"Add": "+", "Subtract": "-", "Multiply": "*", "Divide": "/", "Modulo": "%"}
+    ps = ctx.prog.fns[CALC]["params"]
+    want = {"Add": lambda x, y: x + y, "Subtract": lambda x, y: x - y, "Multiply": lambda x, y: x * y, "Divide": lambda x, y: x / y,
+            "Modulo": lambda x, y: __import__("math").fmod(x, y)}
+    sym = {"Add": "+", "Subtract": "-", "Multiply": "*", "Divide": "/", "Modulo": "%"}
     n = 0
-    for a in match_arms(ms[0]):
-        b = peel(a["body"], methods=False)
-        for k in a["keys"]:
-            op = key_name(k).split("::")[-1]
-            if op not in want:
-                continue
+
+    def call(node, recv, args, it, env):
+        m = node.get("m")
+        if m in ("to_float",) and isinstance(recv, dict) and "__f" in recv:
+            return (recv["__f"],)
+        if m in ("to_int",) and isinstance(recv, dict) and "__f" in recv:
+            return (int(recv["__f"]),)
+        if str(node.get("callee", "")).endswith("Variant::from_float") and args:
+            return (args[0],)
+        return None
+    for op, f in want.items():
+        for x, y in ((7.0, 2.0), (-7.5, 4.0), (3.0, 8.0)):
             n += 1
-            ok = b["k"] == "Bin" and b["op"] == want[op] and render(b["l"]) == "left.to_float()" and render(b["r"]) == "right.to_float()"
+            env = {ps[0]["id"]: interp.V("ArithmeticOp::" + op), ps[1]["id"]: {"__f": x}, ps[2]["id"]: {"__f": y}}
+            try:
+                got = interp.Interp(call=call).run(h, env)
+            except interp.Undecided as e:
+                ctx.violation("calc/%s/unreadable" % op, ctx.where(CALC), "cannot evaluate calc for %s: %s" % (op, e))
+                break
+            ok = isinstance(got, float) and abs(got - f(x, y)) < 1e-12
             ctx.obligation(ok)
             if not ok:
-                ctx.violation("calc/%s" % op, ctx.where(CALC, b), "%s must compute left %s right; found `%s`" % (op, want[op], render(b)))
-    ctx.covered("arms of ArithmeticOp::calc (operator and operand order)", n, distinct_keys=list(want), exhaustive=True)
-    ctx.floor(n, 5, "arms of ArithmeticOp::calc", CALC)
+                ctx.violation("calc/%s" % op, ctx.where(CALC), "%s must compute left %s right; calc(%s, %s) evaluates to %r" % (op, sym[op], x, y, got))
+                break
+    ctx.covered("ArithmeticOp::calc evaluated per operator on three operand pairs (operator and operand order)", n, distinct_keys=list(want), exhaustive=True)
+    ctx.floor(n, 15, "evaluations of ArithmeticOp::calc", CALC)
     # the evaluator applies calc to (left value, right value)
     g = ctx.anchor_hir(GCEV)
     cs = [c for c in walk_exprs(g) if c["k"] == "MCall" and c["m"] == "calc"]
@@ -174,26 +189,30 @@ def r3(ctx):
         ctx.violation("key/brackets", ctx.where(DISPLAY), "nested arithmetic operands are not bracketed in the key: `(1 + 2) * 3` and `1 + 2 * 3` share one cached value")
 
 
+def _kind_branch(g, kind):
+    blk = None
+    for x in walk_exprs(g):
+        if x["k"] == "If" and peel(x["c"], methods=False)["k"] == "LetE" and \
+                render(peel(x["c"], methods=False)["init"]).endswith("column_expr.%s" % kind):
+            blk = x
+    return blk
+
+
 def r4(ctx):
     """unary minus: each evaluator branch for a node kind that can carry `minus` reads it"""
     g = ctx.anchor_hir(GCEV)
     n = 0
     for kind in ("function", "field", "val"):
-        blk = None
-        for x in walk_exprs(g):
-            if x["k"] == "If" and peel(x["c"], methods=False)["k"] == "LetE" and \
-                    render(peel(x["c"], methods=False)["init"]).endswith("column_expr.%s" % kind):
-                blk = x
+        blk = _kind_branch(g, kind)
         if blk is None:
             ctx.violation("minus/%s/anchor" % kind, ctx.where(GCEV), "evaluator branch for `%s` nodes not found" % kind)
             continue
-        rets = [y for y in walk_exprs(blk["t"]) if y["k"] == "Ret" and "e" in y]
         n += 1
         bad = []
-        for rtn in rets:
-            e = rtn["e"]
-            txt = render(Locals(blk["t"]).chase(e))
-            if "Variant::empty" in txt:
+        locs = Locals(blk["t"])
+        for e, holder in leaf_results(blk["t"]):
+            txt = render(locs.chase(e))
+            if "Variant::empty" in txt or txt in ("()",):
                 continue
             if "minus" not in txt:
                 bad.append(render(e)[:60])
@@ -209,27 +228,21 @@ def r5(ctx):
     g = ctx.anchor_hir(GCEV)
     n = 0
     for kind in ("function", "field"):
-        blk = None
-        for x in walk_exprs(g):
-            if x["k"] == "If" and peel(x["c"], methods=False)["k"] == "LetE" and \
-                    render(peel(x["c"], methods=False)["init"]).endswith("column_expr.%s" % kind):
-                blk = x
+        blk = _kind_branch(g, kind)
         if blk is None:
             continue
-        for rtn in [y for y in walk_exprs(blk["t"]) if y["k"] == "Ret" and "e" in y]:
-            e = peel(rtn["e"], methods=False)
-            chain = path_to(blk["t"], rtn)
-            holder = chain[-1][0] if chain else blk["t"]
-            locs = Locals(blk["t"])
+        locs = Locals(blk["t"])
+        for e0, holder in leaf_results(blk["t"]):
+            e = peel(e0, methods=False)
             src = render(locs.chase(e))
             computed = ("get_function_value" in src or "get_field_value" in src)
             if not computed:
                 continue    # a value read back from the cache / an empty value
             n += 1
             ok = False
-            if e["k"] == "Path" and e.get("rk") == "Local" and holder["k"] == "Block":
+            if e["k"] == "Path" and e.get("rk") == "Local" and holder is not None and holder["k"] == "Block":
                 for s_ in holder["stmts"]:
-                    if s_ is rtn:
+                    if any(y is e0 or y is e for y in walk_exprs(s_) if y["k"] in ("Ret",)) or (s_["k"] == "Ret" and s_.get("e") is e0):
                         break
                     for c in walk_exprs(s_):
                         if c["k"] == "MCall" and c["m"] == "insert" and render(c["recv"]) == "file_map" and \
@@ -237,7 +250,7 @@ def r5(ctx):
                             ok = True
             ctx.obligation(ok)
             if not ok:
-                ctx.violation("cache/write-through/%s" % kind, ctx.where(GCEV, rtn),
+                ctx.violation("cache/write-through/%s" % kind, ctx.where(GCEV, e0),
                               "the value computed for a `%s` node is returned without being stored under the expression's text after the "
                               "sign was applied; the evaluator's inner cache write holds the unsigned value under the same text, so a "
                               "second occurrence of the expression in the row reads a different value" % kind)
